@@ -23,7 +23,25 @@ fn run_scenario(out: &mut Out, scn: &Value, with_dfs: bool) {
     let nv = scn["nv"].as_u64().unwrap() as usize;
     // reuse the search harness' graph builder (needs a length column)
     let e3: Vec<Value> = scn["E"].as_array().unwrap().iter().map(|e| json!([e[0], e[1], 1, 1])).collect();
-    let g = build_graph(&json!({"nv": nv, "E": e3}));
+    // a third of the graphs are loaded from files by the real loader (scanned counts), the others are assembled in memory
+    let ne = e3.len();
+    let g = if (nv + ne) % 3 == 0 {
+        let dir = crate::search::scratch_dir();
+        let (ep, vp) = (dir.join("scc-edges.csv"), dir.join("scc-vertices.csv"));
+        let mut etxt = String::from("edge_id,src_vertex_id,dst_vertex_id,distance\n");
+        for (i, e) in scn["E"].as_array().unwrap().iter().enumerate() {
+            etxt.push_str(&format!("{},{},{},1\n", i, e[0].as_u64().unwrap() - 1, e[1].as_u64().unwrap() - 1));
+        }
+        let mut vtxt = String::from("vertex_id,x,y\n");
+        for v in 0..nv {
+            vtxt.push_str(&format!("{},0.0,0.0\n", v));
+        }
+        std::fs::write(&ep, etxt).unwrap();
+        std::fs::write(&vp, vtxt).unwrap();
+        routee_compass_core::model::network::graph::Graph::from_files(&ep, &vp, None, None, Some(false)).expect("graph files")
+    } else {
+        build_graph(&json!({"nv": nv, "E": e3}))
+    };
     out.event(json!({"ev": "Graph", "nv": nv, "E": scn["E"]}));
     if with_dfs {
         // top-level calls of the two public searches from every root, on a visited set grown as pass 1 grows it
